@@ -1,3 +1,4 @@
 import SfProofs.Table
 import SfProofs.Bytes
 import SfProofs.Adpcm
+import SfProofs.FormatCheck
